@@ -1154,4 +1154,204 @@ theorem fuse_lift_all (op : FuseOp) (same : Bool) {b1 b2 a1 a2 : Fin n → ℚ} 
     rw [fuse_ecm_lift_gen same h1 h2]; rfl
   · rw [fuse_lift hop same h1.swf h2.swf, fuseQ_of_ne_ecm hop]
 
+/-! ### ideal closed forms (operands outside the tolerance bands)
+
+For plain well-formed operands the clone arms of the ladders are special cases of the formulas, so the
+result is described by a much shorter case distinction. -/
+
+namespace FuseQ
+
+/-- belief part for plain operands: two dogmatic → mean; one dogmatic → that operand; otherwise the
+    operator's formula (the vacuous clone arms are instances of it), except Wgh on two vacuous operands -/
+def idealS (op : FuseOp) (b1 : Fin n → ℚ) (u1 : ℚ) (b2 : Fin n → ℚ) (u2 : ℚ) : (Fin n → ℚ) × ℚ :=
+  if u1 = 0 ∧ u2 = 0 then (meanA b1 b2, 0)
+  else if u1 = 0 then (b1, 0)
+  else if u2 = 0 then (b2, 0)
+  else match op with
+    | .acm | .ecm => (acmB b1 u1 b2 u2, acmU u1 u2)
+    | .avg => (avgB b1 u1 b2 u2, avgU u1 u2)
+    | .wgh => if u1 = 1 ∧ u2 = 1 then (fun _ => 0, 1) else (wghB b1 u1 b2 u2, wghU u1 u2)
+
+/-- base rate for plain operands when the shortcut is invisible: mean for two dogmatic / two vacuous
+    operands and for Avg, otherwise the weighted formula (clone arms are instances of it) -/
+def idealA (op : FuseOp) (a1 : Fin n → ℚ) (u1 : ℚ) (a2 : Fin n → ℚ) (u2 : ℚ) : Fin n → ℚ :=
+  if u1 = 0 ∧ u2 = 0 then meanA a1 a2
+  else match op with
+    | .avg => meanA a1 a2
+    | .acm | .ecm => if u1 = 1 ∧ u2 = 1 then meanA a1 a2 else acmA a1 u1 a2 u2
+    | .wgh => if u1 = 1 ∧ u2 = 1 then meanA a1 a2 else wghA a1 u1 a2 u2
+
+end FuseQ
+
+theorem acmB_vac_left {b1 b2 : Fin n → ℚ} {u2 : ℚ} (h1 : SWF b1 1) :
+    acmB b1 1 b2 u2 = b2 ∧ acmU 1 u2 = u2 := by
+  constructor
+  · funext i; unfold acmB; rw [h1.b_eq_zero i]; simp
+  · unfold acmU; simp
+
+theorem acmB_vac_right {b1 b2 : Fin n → ℚ} {u1 : ℚ} (h2 : SWF b2 1) :
+    acmB b1 u1 b2 1 = b1 ∧ acmU u1 1 = u1 := by
+  constructor
+  · funext i; unfold acmB; rw [h2.b_eq_zero i]; simp
+  · unfold acmU; simp
+
+theorem wghB_vac_left (b1 b2 : Fin n → ℚ) {u2 : ℚ} (h : u2 ≠ 1) :
+    wghB b1 1 b2 u2 = b2 ∧ wghU 1 u2 = u2 := by
+  have : (1 : ℚ) - u2 ≠ 0 := sub_ne_zero.mpr (Ne.symm h)
+  have hden : u2 * (1 - 1) + 1 * (1 - u2) = 1 - u2 := by ring
+  constructor
+  · funext i; unfold wghB; rw [hden, div_eq_iff this]; ring
+  · unfold wghU; rw [hden, div_eq_iff this]; ring
+
+theorem wghB_vac_right (b1 b2 : Fin n → ℚ) {u1 : ℚ} (h : u1 ≠ 1) :
+    wghB b1 u1 b2 1 = b1 ∧ wghU u1 1 = u1 := by
+  have : (1 : ℚ) - u1 ≠ 0 := sub_ne_zero.mpr (Ne.symm h)
+  have hden : 1 * (1 - u1) + u1 * (1 - 1) = 1 - u1 := by ring
+  constructor
+  · funext i; unfold wghB; rw [hden, div_eq_iff this]; ring
+  · unfold wghU; rw [hden, div_eq_iff this]; ring
+
+/-- the exact-test ladder of the belief part coincides with the ideal closed form on well-formed operands -/
+theorem simplexQ0_eq_ideal (op : FuseOp) {b1 b2 : Fin n → ℚ} {u1 u2 : ℚ} (h1 : SWF b1 u1) (h2 : SWF b2 u2) :
+    simplexQ0 op b1 u1 b2 u2 = idealS op b1 u1 b2 u2 := by
+  unfold simplexQ0 idealS
+  by_cases hd : u1 = 0 ∧ u2 = 0
+  · rw [if_pos hd, if_pos hd]; obtain ⟨rfl, rfl⟩ := hd; rw [dogB_zero]
+  rw [if_neg hd, if_neg hd]
+  by_cases z1 : u1 = 0
+  · subst z1
+    have z2 : u2 ≠ 0 := fun h => hd ⟨rfl, h⟩
+    cases op <;> simp [z2]
+  by_cases z2 : u2 = 0
+  · subst z2
+    cases op <;> simp [z1]
+  have cum : ∀ F : (Fin n → ℚ) × ℚ,
+      (u1 = 1 → u2 = 1 → F = ((fun _ => 0 : Fin n → ℚ), (1 : ℚ))) →
+      (u1 = 1 → u2 ≠ 1 → F = (b2, u2)) → (u2 = 1 → u1 ≠ 1 → F = (b1, u1)) →
+      (if u1 = 1 ∧ u2 = 1 then ((fun _ => 0 : Fin n → ℚ), (1 : ℚ))
+        else if u1 = 1 ∨ u2 = 0 then (b2, u2) else if u2 = 1 ∨ u1 = 0 then (b1, u1) else F) = F := by
+    intro F hvv hv1 hv2
+    split_ifs with hv hr hl
+    · exact (hvv hv.1 hv.2).symm
+    · rcases hr with hr | hr
+      · exact (hv1 hr (fun h => hv ⟨hr, h⟩)).symm
+      · exact absurd hr z2
+    · rcases hl with hl | hl
+      · exact (hv2 hl (fun h => hr (Or.inl h))).symm
+      · exact absurd hl z1
+    · rfl
+  have hacm : (if u1 = 1 ∧ u2 = 1 then ((fun _ => 0 : Fin n → ℚ), (1 : ℚ))
+        else if u1 = 1 ∨ u2 = 0 then (b2, u2) else if u2 = 1 ∨ u1 = 0 then (b1, u1)
+        else (acmB b1 u1 b2 u2, acmU u1 u2)) = (acmB b1 u1 b2 u2, acmU u1 u2) := by
+    refine cum _ ?_ ?_ ?_
+    · rintro rfl rfl
+      rw [(acmB_vac_left h1).1, (acmB_vac_left (b2 := b2) h1).2]
+      congr 1; funext i; exact h2.b_eq_zero i
+    · rintro rfl _; rw [(acmB_vac_left h1).1, (acmB_vac_left (b2 := b2) h1).2]
+    · rintro rfl _; rw [(acmB_vac_right h2).1, (acmB_vac_right (b1 := b1) h2).2]
+  cases op
+  · dsimp only; conv_rhs => rw [if_neg z1, if_neg z2]
+    exact hacm
+  · dsimp only; conv_rhs => rw [if_neg z1, if_neg z2]
+    exact hacm
+  · dsimp only; simp only [if_neg z1, if_neg z2]
+  · dsimp only; conv_rhs => rw [if_neg z1, if_neg z2]
+    by_cases hv : u1 = 1 ∧ u2 = 1
+    · rw [if_pos hv, if_pos hv]
+    have := cum (wghB b1 u1 b2 u2, wghU u1 u2) (fun a b => absurd ⟨a, b⟩ hv)
+      (by rintro rfl h; rw [(wghB_vac_left b1 b2 h).1, (wghB_vac_left (n := n) b1 b2 h).2])
+      (by rintro rfl h; rw [(wghB_vac_right b1 b2 h).1, (wghB_vac_right (n := n) b1 b2 h).2])
+    rw [this, if_neg hv]
+
+/-- the exact-test ladder of the base rate coincides with the ideal closed form when the shortcut is only
+    taken at equal entries -/
+theorem baseRateQ0_eq_ideal (op : FuseOp) {a1 a2 : Fin n → ℚ} {u1 u2 : ℚ}
+    (h10 : 0 ≤ u1) (h11 : u1 ≤ 1) (h20 : 0 ≤ u2) (h21 : u2 ≤ 1)
+    (hsc : ∀ i, sc f a1 a2 i = true → a1 i = a2 i) :
+    baseRateQ0 f op false a1 u1 a2 u2 = idealA op a1 u1 a2 u2 := by
+  have hmean : short f a1 a2 (meanA a1 a2) = meanA a1 a2 :=
+    short_eq_of_agree hsc (fun i => (isMix_mean a1 a2).of_eq weights_mean)
+  unfold baseRateQ0 idealA
+  simp only [Bool.false_eq_true, if_false]
+  by_cases hd : u1 = 0 ∧ u2 = 0
+  · rw [if_pos hd, if_pos hd]
+  rw [if_neg hd, if_neg hd]
+  have c1 := sub_nonneg.mpr h11
+  have c2 := sub_nonneg.mpr h21
+  cases op
+  case avg => exact hmean
+  case wgh =>
+    dsimp only
+    by_cases hv : u1 = 1 ∧ u2 = 1
+    · rw [if_pos hv, if_pos hv, hmean]
+    rw [if_neg hv, if_neg hv]
+    have hw : Weights (1 - u1) (1 - u2) := by
+      refine ⟨c1, c2, ?_⟩
+      rcases lt_or_eq_of_le h11 with h | h
+      · linarith
+      · rcases lt_or_eq_of_le h21 with h' | h'
+        · linarith
+        · exact absurd ⟨h, h'⟩ hv
+    split_ifs with v1 v2
+    · subst v1; funext i; unfold wghA
+      have : (1 : ℚ) - u2 ≠ 0 := fun h => hv ⟨rfl, by linarith⟩
+      field_simp; ring
+    · subst v2; funext i; unfold wghA
+      have : (1 : ℚ) - u1 ≠ 0 := fun h => v1 (by linarith)
+      field_simp; ring
+    · exact short_eq_of_agree hsc (fun i => (isMix_wgh a1 a2 u1 u2).of_eq hw)
+  all_goals
+    dsimp only
+    by_cases hv : u1 = 1 ∧ u2 = 1
+    · rw [if_pos hv, if_pos hv, hmean]
+    rw [if_neg hv, if_neg hv]
+    have hw : Weights (u2 * (1 - u1)) (u1 * (1 - u2)) := by
+      refine ⟨mul_nonneg h20 c1, mul_nonneg h10 c2, ?_⟩
+      rcases lt_or_eq_of_le h10 with p1 | p1
+      · rcases lt_or_eq_of_le h21 with q2 | q2
+        · have := mul_pos p1 (sub_pos.mpr q2); have := mul_nonneg h20 c1; linarith
+        · subst q2
+          have q1 : u1 < 1 := lt_of_le_of_ne h11 (fun h => hv ⟨h, rfl⟩)
+          have := mul_pos one_pos (sub_pos.mpr q1); simp only [sub_self, mul_zero, add_zero]; linarith
+      · subst p1
+        have p2 : 0 < u2 := lt_of_le_of_ne h20 (fun h => hd ⟨rfl, h.symm⟩)
+        simp only [sub_zero, mul_one, zero_mul, add_zero]; exact p2
+    split_ifs with hr hl
+    · funext i
+      rw [(isMix_acm a1 a2 u1 u2) i]
+      have hs := ne_of_gt hw.hs
+      rcases hr with rfl | rfl <;> (rw [eq_div_iff hs]; ring)
+    · funext i
+      rw [(isMix_acm a1 a2 u1 u2) i]
+      have hs := ne_of_gt hw.hs
+      rcases hl with rfl | rfl <;> (rw [eq_div_iff hs]; ring)
+    · exact short_eq_of_agree hsc (fun i => (isMix_acm a1 a2 u1 u2).of_eq hw)
+
+/-- belief ladder on plain well-formed operands = ideal closed form -/
+theorem simplexQ_plain_ideal (op : FuseOp) {b1 b2 : Fin n → ℚ} {u1 u2 : ℚ} (h1 : SWF b1 u1) (h2 : SWF b2 u2)
+    (p1 : Plain f u1) (p2 : Plain f u2) :
+    simplexQ f op b1 u1 b2 u2 = idealS op b1 u1 b2 u2 := by
+  rw [simplexQ_plain op b1 b2 p1 p2, simplexQ0_eq_ideal op h1 h2]
+
+/-- base-rate ladder on plain operands, shortcut only at equal entries = ideal closed form -/
+theorem baseRateQ_plain_ideal (op : FuseOp) (same : Bool) {a1 a2 : Fin n → ℚ} {u1 u2 : ℚ}
+    (h10 : 0 ≤ u1) (h11 : u1 ≤ 1) (h20 : 0 ≤ u2) (h21 : u2 ≤ 1) (p1 : Plain f u1) (p2 : Plain f u2)
+    (hsc : same = false → ∀ i, sc f a1 a2 i = true → a1 i = a2 i) :
+    baseRateQ f op same a1 u1 a2 u2 = if same then a1 else idealA op a1 u1 a2 u2 := by
+  cases same
+  · rw [baseRateQ_plain op false a1 a2 p1 p2, baseRateQ0_eq_ideal op h10 h11 h20 h21 (hsc rfl)]
+    simp
+  · rw [baseRateQ_same]; simp
+
+/-- ACm / Avg / Wgh fusion of plain well-formed opinions (shortcut only at equal entries): the ideal
+    closed forms -/
+theorem fuse_plain {op : FuseOp} (hop : op ≠ .ecm) (same : Bool) {b1 b2 a1 a2 : Fin n → ℚ} {u1 u2 : ℚ}
+    (h1 : SWF b1 u1) (h2 : SWF b2 u2) (p1 : Plain f u1) (p2 : Plain f u2)
+    (hsc : same = false → ∀ i, sc f a1 a2 i = true → a1 i = a2 i) :
+    fuse op same (⟨liftT b1, XQ.fin u1, liftT a1⟩ : Opinion (XQ f) n) ⟨liftT b2, XQ.fin u2, liftT a2⟩
+      = ⟨liftT (idealS op b1 u1 b2 u2).1, XQ.fin (idealS op b1 u1 b2 u2).2,
+          liftT (if same then a1 else idealA op a1 u1 a2 u2)⟩ := by
+  rw [fuse_lift hop same h1 h2, simplexQ_plain_ideal op h1 h2 p1 p2,
+    baseRateQ_plain_ideal op same h1.hu h1.u_le_one h2.hu h2.u_le_one p1 p2 hsc]
+
 end SLV
